@@ -10,6 +10,7 @@
 #include <vector>
 #include <cstring>
 #include <cstdint>
+#include <memory>
 #include <gmp.h>
 #include <gmpxx.h>
 #include <recint/recint.h>
@@ -48,6 +49,7 @@ template <size_t K> static void garbage(ruint<K>& x) { memset(static_cast<void*>
 // access to the protected members of Montgomery<ruint<K>>
 template <size_t K> struct OpenR : public Givaro::Montgomery<ruint<K>> {
     typedef Givaro::Montgomery<ruint<K>> Base;
+    OpenR() : Base() {}
     OpenR(const ruint<K>& p) : Base(p) {}
     OpenR(const Base& F) : Base(F) {}
     OpenR& operator=(const OpenR& F) { Base::operator=(F); return *this; }
@@ -62,6 +64,42 @@ template <size_t K> struct OpenR : public Givaro::Montgomery<ruint<K>> {
 };
 
 #define V(name) else if (v == name)
+
+// Every way of obtaining a Montgomery<ruint<K>> object with modulus p (line prefix "@<how>:"), built in place on the heap
+// (returning by value would run the copy constructor and repair what an assignment left stale).
+template <size_t K> static OpenR<K>* obtainR(const std::string& how, const ruint<K>& p) {
+    typedef OpenR<K> F_t;
+    ruint<K> other(p == ruint<K>(7) ? 11 : 7), big; memset(static_cast<void*>(&big), 0xFF, sizeof(big));   // 2^(2^K) - 1
+    if (big == p) big = p - 2;
+    if (how == "" || how == "ctor") return new F_t(p);
+    if (how == "copy") { F_t G(p); return new F_t(G); }
+    if (how == "asgS") { F_t* W = new F_t(other); F_t G(p); *W = G; return W; }
+    if (how == "asgL") { F_t* W = new F_t(big); F_t G(p); *W = G; return W; }
+    if (how == "dflt") { F_t* W = new F_t(); F_t G(p); *W = G; return W; }
+    if (how == "self") { F_t* W = new F_t(p); F_t& A = *W; *W = A; return W; }
+    if (how == "twice") { F_t* W = new F_t(other); { F_t G(big); *W = G; } { F_t G(p); *W = G; } return W; }
+    if (how == "chain") { F_t* W = new F_t(other); F_t G(p); F_t H(big); H = G; *W = H; return W; }
+    if (how == "cpasg") { F_t* W0 = new F_t(other); F_t G(p); *W0 = G; F_t* W = new F_t(*W0); delete W0; return W; }
+    return nullptr;
+}
+// rmint<K,MG>: the modulus is static; "obtaining the ring" = init_module, possibly after the module held another modulus
+template <size_t K> static bool reinit(const std::string& how, const ruint<K>& p) {
+    using namespace RecInt;
+    ruint<K> other(p == ruint<K>(7) ? 11 : 7), big; memset(static_cast<void*>(&big), 0xFF, sizeof(big));
+    if (big == p) big = p - 2;
+    if (how == "" || how == "ctor") return true;
+    const ruint<K>* seq[3] = {nullptr, nullptr, nullptr};
+    if (how == "reinitS") seq[0] = &other;
+    else if (how == "reinitL") seq[0] = &big;
+    else if (how == "same") seq[0] = &p;
+    else if (how == "twice") { seq[0] = &other; seq[1] = &big; }
+    else return false;
+    for (int i = 0; i < 3 && seq[i]; ++i) {          // use the module under the earlier modulus, then leave it behind
+        rmint<K, MGA>::init_module(*seq[i]); rmint<K, MGI>::init_module(*seq[i]);
+        rmint<K, MGA> x(ruint<K>(5)), y(ruint<K>(3)); mul(x, x, y); rmint<K, MGI> u(ruint<K>(5)), w(ruint<K>(3)); mul(u, u, w);
+    }
+    return true;
+}
 
 // ------------------------------------------------------------------------------------ rmint<K, MG>
 template <size_t K, size_t MG> struct RunM {
@@ -155,10 +193,13 @@ template <size_t K, size_t MG> struct RunM {
 };
 
 template <size_t K> struct RunK {
-    static bool go(const std::string& v, const Args& all, std::ostringstream& o) {
+    static bool go(const std::string& v0, const Args& all, std::ostringstream& o) {
         using namespace RecInt;
         ruint<K> p; from_mpz(p, all.at(0));
         Args a(all.begin() + 1, all.end());
+        std::string how, v = v0;
+        if (!v.empty() && v[0] == '@') { size_t c = v.find(':'); how = v.substr(1, c - 1); v = v.substr(c + 1); }
+        if (v.compare(0, 2, "R.") != 0 && !reinit<K>(how, p)) return false;
         if (v.compare(0, 2, "A.") == 0) {
             if (v == "A.module") {
                 rmint<K, MGA>::init_module(p); ruint<K> q; rmint<K, MGA>::get_module(q);
@@ -186,7 +227,9 @@ template <size_t K> struct RunK {
         // ---------------------------------------------------------------- Givaro::Montgomery<ruint<K>>
         typedef OpenR<K> F_t;
         typedef ruint<K> E;
-        F_t F(p);
+        std::unique_ptr<F_t> FP(obtainR<K>(how, p));
+        if (!FP) return false;
+        F_t& F = *FP;
         E r; garbage(r);
         E x, y, z;
         if (a.size() > 0) from_mpz(x, a[0]);
@@ -235,6 +278,15 @@ template <size_t K> struct RunK {
         V("R.init.i64") F.init(r, (int64_t)a.at(0).get_si());
         V("R.init.u32") F.init(r, (uint32_t)a.at(0).get_ui());
         V("R.init.i32") F.init(r, (int32_t)a.at(0).get_si());
+        V("R.init.double") F.init(r, (double)a.at(0).get_d());
+        V("R.init.float") F.init(r, (float)a.at(0).get_d());
+        V("R.init.u16") F.init(r, (uint16_t)a.at(0).get_ui());
+        V("R.init.i16") F.init(r, (int16_t)a.at(0).get_si());
+        V("R.init.ull") F.init(r, (unsigned long long)a.at(0).get_ui());
+        V("R.init.ll") F.init(r, (long long)a.at(0).get_si());
+        V("R.convert.u32") { uint32_t t; o << hx64(F.convert(t, x)); haveElt = false; }
+        V("R.convert.i64") { int64_t t; o << hx64((uint64_t)F.convert(t, x)); haveElt = false; }
+        V("R.convert.double") { double t; o << hx64((uint64_t)F.convert(t, x)); haveElt = false; }
         V("R.init.integer") { Givaro::Integer I(a.at(0).get_str(10).c_str()); F.init(r, I); }
         V("R.read") { std::istringstream is(a.at(0).get_str(10)); F.read(is, r); }
         V("R.convert.ruint") { E t; garbage(t); o << hx(F.convert(t, x)); haveElt = false; }
